@@ -43,7 +43,7 @@ def build_cases(ctx):
     groups = [
         bg.gen_lexing(rng, ctx.n(60, 400)), bg.gen_syntax(rng, ctx.n(260, 1500)), bg.gen_names(rng, ctx.n(120, 600)),
         bg.gen_layout(rng, ctx.n(176, 880)), bg.gen_range(rng, ctx.n(256, 2048)), bg.gen_arith(rng, ctx.n(360, 2880)),
-        bg.gen_recursion(rng, ctx.n(90, 184)), bg.gen_collisions(rng, ctx.n(76, 304)), bg.gen_huge(rng, ctx.n(52, 104), mem),
+        bg.gen_recursion(rng, ctx.n(90, 184)), bg.gen_collisions(rng, ctx.n(76, 304)), bg.gen_huge(rng, ctx.n(56, 112), mem),
     ]
     valid = bg.gen_valid(rng, ctx.n(150, 1500))
     groups.append(valid)
@@ -229,7 +229,7 @@ LIB_CODE = [  # (exception class, regex on the message) -> libkind code of AsmEr
     ('FlipJumpPreprocessorException', r'label declared twice', 12), ('FlipJumpPreprocessorException', r"Can't evaluate how many times", 13),
     ('FlipJumpPreprocessorException', r"Can't evaluate how much to pad", 14), ('FlipJumpPreprocessorException', r"'pad' must get a positive", 15),
     ('FlipJumpPreprocessorException', r"'pad' requires the current address", 16), ('FlipJumpPreprocessorException', r'segment failed', 17),
-    ('FlipJumpPreprocessorException', r"'pad .* needs .* padding ops", 21), ('FlipJumpWriteFjmException', r'data word', 40),
+    ('FlipJumpPreprocessorException', r"'pad -?[0-9a-fx]+", 21), ('FlipJumpWriteFjmException', r'data word', 40),
     ('FlipJumpPreprocessorException', r'segment ops must have', 18), ('FlipJumpPreprocessorException', r'reserve failed', 19),
     ('FlipJumpPreprocessorException', r'reserve ops must have', 20),
     ('FlipJumpPreprocessorException', r'reserve must get a non-negative', 22),
@@ -255,6 +255,10 @@ def real_code(obs):
     for cls, rx, code in LIB_CODE:
         if obs['cls'] == cls and re.search(rx, obs['msg'], re.S):
             return 100 + code
+    # the worker cuts the message at 1500 characters: a diagnostic that prints a number of thousands of hex digits loses
+    # its " in op ..." tail; labels_resolve raises nothing else
+    if obs['cls'] == 'FlipJumpAssemblerException' and obs.get('frame') == 'labels_resolve' and obs.get('msg_len', 0) > 1500:
+        return 131 if obs['msg'].startswith('Not enough space') else 130
     return None
 
 
@@ -385,6 +389,7 @@ def compare_with_model(ctx, cases, obs):
         rc = real_code(o)
         if rc is None:
             ctx.hist('model_compare', 'real outcome outside the model coding')
+            ctx.coverage.setdefault('model_uncoded', []).append(f'{o.get("cls")}: {o.get("msg", "")[:120]}')
             continue
         try:
             term, _ = model_term(c, tree)
